@@ -239,8 +239,9 @@ class Check:
             'wall_s': round(time.time() - self.t0, 2),
             'violations': len(viol),
         }
-        os.makedirs(os.path.join(VERIF, 'evidence'), exist_ok=True)
-        with open(os.path.join(VERIF, 'evidence', self.prop + '.json'), 'w') as f:
+        evdir = os.environ.get('VERIF_EVIDENCE_DIR', os.path.join(VERIF, 'evidence'))
+        os.makedirs(evdir, exist_ok=True)
+        with open(os.path.join(evdir, self.prop + '.json'), 'w') as f:
             json.dump(ev, f, indent=1, sort_keys=False)
             f.write('\n')
         for fid, n in sorted(st.known.items()):
